@@ -324,9 +324,15 @@ InterpEvOK(ev) ==
 \* evaluated by the harness against the E and S this specification supplied;
 \* outcomes (no exception) are exact
 FpVerdict(ev, ty, k) == ev[k] = "ok" /\ ev[ty].ok = 1 /\ ev[ty].n >= 1
+\* C15's view of a floating event: every spline that denotes zero (built with signed zeros: a * 0, a * -0,
+\* -(a * 0), a - a, ...) was reported zero by isZero - ScalePost / SubPost make its Den identically zero
+FpZeroOK(ev, ty) == ev[ty].zp = ev[ty].zn
 FpEvOK(ev) ==
+  IF PROP = "C15" THEN ev.op = "FpBin" /\ FpZeroOK(ev, "float") /\ FpZeroOK(ev, "double") /\ FpZeroOK(ev, "ldouble")
+  ELSE
   /\ (ev.op # "FpInt" => FpVerdict(ev, "float", "out_f"))
   /\ FpVerdict(ev, "double", "out_d") /\ FpVerdict(ev, "ldouble", "out_l")
+  /\ (PROP = "ALL" /\ ev.op = "FpBin" => FpZeroOK(ev, "float") /\ FpZeroOK(ev, "double") /\ FpZeroOK(ev, "ldouble"))
 
 \* grid construction from special floating-point values (C11):
 \* pts[i] = <<tag, n, d>>, tag 0 number, 1 NaN, 2 +Inf, 3 -Inf, 4 -0.0
